@@ -691,7 +691,14 @@ func rulePeekUnread(c *Ctx, r *Report) {
 			}
 			sentinels := map[string]bool{}
 			if rr := c.method("Stream", "ReadRune"); rr != nil {
-				for _, f := range append(withAnon(rr), c.method("Stream", "initRead")) {
+				// the read itself and every Stream method it statically reaches (the checks may live in helpers)
+				scope := withAnon(rr)
+				for _, f := range c.LibFuncs() {
+					if f != rr && f.Parent() == nil && recvNamed(f) == "Stream" && c.staticallyReaches(rr, f) {
+						scope = append(scope, f)
+					}
+				}
+				for _, f := range scope {
 					if f == nil {
 						continue
 					}
@@ -879,7 +886,62 @@ func ruleEOFActionPast(c *Ctx, r *Report) {
 	if n == 0 {
 		r.bad(rule, "Stream/eofAction", "-", "eof_action is applied only in state past", "no method of Stream consults eofAction")
 	}
-	r.analysed(rule, fmt.Sprintf("%d consultations of Stream.eofAction", n))
+	// (added with fix F54) ... and only for an operation that is going to be carried out: inside the Stream type the
+	// function that consults eofAction is called where the stream's type has already been compared with the
+	// type the operation needs.  A refused get_byte/2 on a text stream otherwise resets the stream (past -> not)
+	// or reports past_end_of_stream instead of the type mismatch.
+	consults := map[*ssa.Function]bool{}
+	for _, fn := range c.LibFuncs() {
+		if recvNamed(fn) != "Stream" {
+			continue
+		}
+		eachInstr(fn, func(in ssa.Instruction) {
+			if fa, ok := in.(*ssa.FieldAddr); ok && fieldName(fa) == "eofAction" && fa.Referrers() != nil {
+				for _, ref := range *fa.Referrers() {
+					if u, ok := ref.(*ssa.UnOp); ok && u.Op == token.MUL {
+						consults[fn] = true
+					}
+				}
+			}
+		})
+	}
+	m := 0
+	for _, fn := range c.LibFuncs() {
+		if recvNamed(fn) != "Stream" || fn.Parent() != nil {
+			continue
+		}
+		k := 0
+		eachInstr(fn, func(in ssa.Instruction) {
+			call, ok := in.(*ssa.Call)
+			if !ok || !consults[call.Call.StaticCallee()] {
+				return
+			}
+			m++
+			k++
+			key := fmt.Sprintf("%s/eof-action-after-type-check#%d", fname(fn), k)
+			desc := "the eof_action is applied only after the operation's unit has been checked against the stream's type"
+			typed := false
+			for f := range c.factsAt(in.Block()) {
+				dataSlice(f.cond, func(x ssa.Value) bool {
+					if ld, ok := x.(*ssa.UnOp); ok && ld.Op == token.MUL {
+						if fa, ok := ld.X.(*ssa.FieldAddr); ok && fieldName(fa) == "streamType" {
+							typed = true
+						}
+					}
+					return !typed
+				})
+			}
+			if typed {
+				r.ok(rule, key, c.at(in), desc, "called under a comparison of Stream.streamType", true)
+			} else {
+				r.bad(rule, key, c.at(in), desc, "the eof_action is applied before the type of the stream is looked at: an operation that is then refused has already reset the stream or raised past_end_of_stream")
+			}
+		})
+	}
+	if m == 0 {
+		r.undecided(rule, "Stream/eof-action-callers", "-", "locate the callers of the function that applies the eof_action", "none inside the Stream type")
+	}
+	r.analysed(rule, fmt.Sprintf("%d consultations of Stream.eofAction, %d calls of the consulting function inside Stream", n, m))
 }
 
 // ---------------------------------------------------------------------------
@@ -941,6 +1003,32 @@ func ruleStreamTypeGuard(c *Ctx, r *Report) {
 			seen[base]++
 			key := fmt.Sprintf("%s#%d", base, seen[base])
 			guarded := false
+			// (a) the guard lives in a helper: a Stream method called with the wanted type as a constant, whose
+			// error is known nil here, and which returns nil only where streamType equals that parameter
+			for f := range c.factsAt(in.Block()) {
+				x, op, ok := nilCmp(f.cond)
+				if !ok || (op == token.EQL) != f.pol {
+					continue
+				}
+				for _, l := range c.originSet(x) {
+					if ex, ok := l.(*ssa.Extract); ok {
+						l = ex.Tuple
+					}
+					hc, ok := l.(*ssa.Call)
+					if !ok {
+						continue
+					}
+					h := hc.Call.StaticCallee()
+					if h == nil || recvNamed(h) != "Stream" {
+						continue
+					}
+					for i, a := range hc.Call.Args {
+						if k, ok := constInt(a); ok && k == want[u] && i < len(h.Params) && c.nilOnlyForType(h, h.Params[i]) {
+							guarded = true
+						}
+					}
+				}
+			}
 			for f := range c.factsAt(in.Block()) {
 				bo, ok := f.cond.(*ssa.BinOp)
 				if !ok {
@@ -1228,27 +1316,7 @@ func (c *Ctx) allGuarded(factsAt func(*ssa.BasicBlock) map[fact]bool, op string,
 				return
 			}
 			n++
-			g := false
-			for f := range factsAt(in.Block()) {
-				bo, ok := f.cond.(*ssa.BinOp)
-				if !ok || (bo.Op != token.EQL && bo.Op != token.NEQ) || (bo.Op == token.EQL) != f.pol {
-					continue
-				}
-				for _, pair := range [][2]ssa.Value{{bo.X, bo.Y}, {bo.Y, bo.X}} {
-					ld, ok := pair[0].(*ssa.UnOp)
-					if !ok || ld.Op != token.MUL {
-						continue
-					}
-					fa, ok := ld.X.(*ssa.FieldAddr)
-					if !ok || fieldName(fa) != "streamType" {
-						continue
-					}
-					if k, ok := constInt(pair[1]); ok && k == want {
-						g = true
-					}
-				}
-			}
-			if !g {
+			if !c.typeGuardedAt(in, want) {
 				good = false
 			}
 		})
@@ -1512,4 +1580,102 @@ func ruleFunctorNotOperand(c *Ctx, r *Report) {
 		r.bad(rule, key, c.at(site), desc, "the functor is written under the compound's own options: as the operand of an operator an operator functor is parenthesised like a bare atom, (-)(a,b,c), which is not a term")
 	}
 	r.analysed(rule, fname(fn))
+}
+
+// nilOnlyForType: every return of h whose error result is not a package-level error value lies where the
+// receiver's streamType is known to equal the parameter p (h refuses every other type).
+func (c *Ctx) nilOnlyForType(h *ssa.Function, p *ssa.Parameter) bool {
+	if h.Blocks == nil {
+		return false
+	}
+	ok := true
+	found := false
+	eachInstr(h, func(in ssa.Instruction) {
+		ret, isRet := in.(*ssa.Return)
+		if !isRet || len(ret.Results) == 0 {
+			return
+		}
+		found = true
+		res := ret.Results[len(ret.Results)-1]
+		sentinel := true
+		for _, l := range c.originSet(res) {
+			u, isLoad := l.(*ssa.UnOp)
+			if !isLoad || u.Op != token.MUL {
+				sentinel = false
+				continue
+			}
+			if _, isGlobal := u.X.(*ssa.Global); !isGlobal {
+				sentinel = false
+			}
+		}
+		if sentinel {
+			return
+		}
+		typed := false
+		for f := range c.factsAt(ret.Block()) {
+			bo, isBo := f.cond.(*ssa.BinOp)
+			if !isBo || !((bo.Op == token.EQL && f.pol) || (bo.Op == token.NEQ && !f.pol)) {
+				continue
+			}
+			for _, pair := range [][2]ssa.Value{{bo.X, bo.Y}, {bo.Y, bo.X}} {
+				ld, isLoad := pair[0].(*ssa.UnOp)
+				if !isLoad || ld.Op != token.MUL {
+					continue
+				}
+				if fa, isFA := ld.X.(*ssa.FieldAddr); isFA && fieldName(fa) == "streamType" && pair[1] == ssa.Value(p) {
+					typed = true
+				}
+			}
+		}
+		if !typed {
+			ok = false
+		}
+	})
+	return ok && found
+}
+
+// typeGuardedAt: the branch facts at `in` fix the stream type to `want` - by a comparison of Stream.streamType
+// with that constant, or by the nil error of a Stream method that was handed that constant and returns nil only
+// for streams of the type it was handed (nilOnlyForType).
+func (c *Ctx) typeGuardedAt(in ssa.Instruction, want int64) bool {
+	for f := range c.factsAt(in.Block()) {
+		if bo, ok := f.cond.(*ssa.BinOp); ok && (bo.Op == token.EQL || bo.Op == token.NEQ) && (bo.Op == token.EQL) == f.pol {
+			for _, pair := range [][2]ssa.Value{{bo.X, bo.Y}, {bo.Y, bo.X}} {
+				ld, ok := pair[0].(*ssa.UnOp)
+				if !ok || ld.Op != token.MUL {
+					continue
+				}
+				fa, ok := ld.X.(*ssa.FieldAddr)
+				if !ok || fieldName(fa) != "streamType" {
+					continue
+				}
+				if k, ok := constInt(pair[1]); ok && k == want {
+					return true
+				}
+			}
+		}
+		x, op, ok := nilCmp(f.cond)
+		if !ok || (op == token.EQL) != f.pol {
+			continue
+		}
+		for _, l := range c.originSet(x) {
+			if ex, ok := l.(*ssa.Extract); ok {
+				l = ex.Tuple
+			}
+			hc, ok := l.(*ssa.Call)
+			if !ok {
+				continue
+			}
+			h := hc.Call.StaticCallee()
+			if h == nil || recvNamed(h) != "Stream" {
+				continue
+			}
+			for i, a := range hc.Call.Args {
+				if k, ok := constInt(a); ok && k == want && i < len(h.Params) && c.nilOnlyForType(h, h.Params[i]) {
+					return true
+				}
+			}
+		}
+	}
+	return false
 }
